@@ -2161,7 +2161,12 @@ func (r *Repository) createNewObjectPack(cfg *RepackConfig) (h plumbing.Hash, er
 	if err != nil {
 		return h, err
 	}
-	defer ioutil.CheckClose(wc, &err)
+	closed := false
+	defer func() {
+		if !closed {
+			ioutil.CheckClose(wc, &err)
+		}
+	}()
 	scfg, err := r.Config()
 	if err != nil {
 		return h, err
@@ -2169,6 +2174,13 @@ func (r *Repository) createNewObjectPack(cfg *RepackConfig) (h plumbing.Hash, er
 	enc := packfile.NewEncoder(wc, r.Storer, cfg.UseRefDeltas)
 	h, err = enc.Encode(objs, scfg.Pack.Window)
 	if err != nil {
+		return h, err
+	}
+
+	// The new pack must be in place before any object it contains is
+	// deleted: closing the writer is what publishes it.
+	closed = true
+	if err = wc.Close(); err != nil {
 		return h, err
 	}
 
